@@ -702,9 +702,11 @@ def fam_send(tier, base):
     inputs, trace = base + ".in.ndjson", base + ".trace.ndjson"
     n = verif.emit_inputs(rc, inputs)
     b = verif.build_driver("cluster")
-    verif.run_driver_sharded(b, "TestClusterSend", inputs, trace, shards=10, timeout=7000)
+    verif.CRASHES = []
+    verif.run_driver_sharded(b, "TestClusterSend", inputs, trace, shards=10, timeout=7000, crash_property="C29")
     os.remove(inputs)
     viols, tr = verif.validate_trace("Trace_Send", "Trace_Send.cfg", trace)
+    viols = viols + verif.CRASHES        # a transfer that kills the process does not finish
     lines = verif.read_lines(trace)
     cnt = lambda s: sum(1 for ln in lines if s in ln)
     return dict(trace=trace, viols=viols, states=sum(v[0] for v in stats.values()), transitions=sum(v[1] for v in stats.values()),
